@@ -202,6 +202,12 @@ func loadStateAtHeight(db kaidb.Database, height uint64) *LatestBlockState {
 
 	appHash := rawdb.ReadAppHash(db, height)
 	state.AppHash = appHash
+	if height == 0 {
+		// the genesis state has no last block and no application hash yet (see MakeGenesisState);
+		// block 1 is built and validated against these zero values
+		state.LastBlockID = types.BlockID{}
+		state.AppHash = common.Hash{}
+	}
 
 	lValsInfo := rawdb.ReadConsensusValidatorsInfo(db, common.BytesToHash(sp.LastValidatorsInfoHash))
 	if state.LastBlockHeight > 0 {
